@@ -45,6 +45,16 @@ fn pos_at(p: &Plan, dt: f64) -> (f64, f64) {
     }
 }
 
+/// addresses with this bit pattern are TIS-B / non-transponder targets: their reports are DF18 (control field from
+/// the address), decoded through the second arm of decode_positions and keyed by the announced address
+fn tisb_cf(icao: u32) -> Option<u8> {
+    if icao % 7 == 3 {
+        Some([0u8, 1, 2, 5, 6][(icao as usize / 7) % 5])
+    } else {
+        None
+    }
+}
+
 fn build_frame(icao: u32, lat: f64, lon: f64, odd: bool, surface: bool, rng: &mut Rng) -> Vec<u8> {
     let e = cpr::encode(lat, lon, odd as u32, surface);
     let me = if surface {
@@ -52,7 +62,18 @@ fn build_frame(icao: u32, lat: f64, lon: f64, odd: bool, surface: bool, rng: &mu
     } else {
         frames::me_airborne(11, 0, 0, frames::ac12_from_n(rng.range(100, 1700) as u16), 0, odd as u8, e.yz, e.xz)
     };
-    frames::df17(5, icao, &me)
+    match tisb_cf(icao) {
+        Some(cf) => {
+            let mut f = frames::df18(cf, icao, &me);
+            if rng.chance(0.5) {
+                // no parity check on DF18: the last 24 bits are free
+                let n = f.len();
+                f[n - 3..].copy_from_slice(&rng.bytes(3));
+            }
+            f
+        }
+        None => frames::df17(5, icao, &me),
+    }
 }
 
 fn realise(plans: &[Plan], t0: f64, rng: &mut Rng, mess: bool) -> Vec<Rep> {
@@ -108,6 +129,11 @@ fn to_timed(reps: &[Rep]) -> Vec<TimedMessage> {
 
 fn position_of(t: &TimedMessage) -> Option<(f64, f64)> {
     match &t.message.as_ref()?.df {
+        DF::ExtendedSquitterTisB { cf, .. } => match &cf.me {
+            ME::BDS05(p) => Some((p.latitude?, p.longitude?)),
+            ME::BDS06(p) => Some((p.latitude?, p.longitude?)),
+            _ => None,
+        },
         DF::ExtendedSquitterADSB(a) => match &a.message {
             ME::BDS05(p) => Some((p.latitude?, p.longitude?)),
             ME::BDS06(p) => Some((p.latitude?, p.longitude?)),
@@ -133,9 +159,16 @@ fn run_step(reps: &[Rep], reference: Option<Position>) -> Result<Vec<Option<(f64
         for t in v.iter_mut() {
             let ts = t.timestamp;
             if let Some(m) = &mut t.message {
-                if let DF::ExtendedSquitterADSB(adsb) = &mut m.df {
-                    let mut r = reference;
-                    decode_position(&mut adsb.message, ts, &adsb.icao24, &mut aircraft, &mut r, &None);
+                match &mut m.df {
+                    DF::ExtendedSquitterADSB(adsb) => {
+                        let mut r = reference;
+                        decode_position(&mut adsb.message, ts, &adsb.icao24, &mut aircraft, &mut r, &None);
+                    }
+                    DF::ExtendedSquitterTisB { cf, .. } => {
+                        let mut r = reference;
+                        decode_position(&mut cf.me, ts, &cf.aa, &mut aircraft, &mut r, &None);
+                    }
+                    _ => {}
                 }
             }
         }
@@ -279,6 +312,9 @@ fn judge(r: &mut Report, st: &mut Stats, reps: &[Rep], reference: Option<Positio
     }
     if ok {
         r.class(&format!("family:{family}"));
+        if plans.iter().any(|p| tisb_cf(p.icao).is_some()) {
+            r.class("target:DF18(TIS-B / non-transponder)");
+        }
         let h = reps.iter().fold(0u64, |h, x| h.rotate_left(5) ^ fnv(&x.frame) ^ x.ts.to_bits());
         r.distinct(h);
     }
@@ -528,7 +564,7 @@ pub fn generate(a: &Args) {
 }
 
 pub fn run(a: &Args, r: &mut Report) {
-    r.rule = "random family: 1-4 aircraft, 50-700 kt, great-circle dead reckoning, ~2 Hz reports with mostly alternating parity, 15 % drops, 5 % duplicates re-stamped within 0.3 s, gaps at 0.5 s / 8.5-11.5 s / 11-60 s / 170-190 s / 200-4000 s, 5 % delivery-order and timestamp swaps of neighbours < 1 s apart, starts biased to NL transitions, equator, antimeridian, latitude-zone edges, polar caps; 35 % of scenarios with an airborne->surface transition within 38 NM of a fixed receiver reference; real DF17 frames (TC 11 / TC 7) built by the independent CPR encoder + CRC, decoded by Message::try_from, then decode_positions (batch) or decode_position (step, 25 %). hostile family: deterministic histories on CPR aliases and window edges. Every emitted lat/lon is compared with the encoding-time truth (25 m); each aircraft alone must decode bit-identically. distinct = distinct histories with a correct verdict".into();
+    r.rule = "random family: 1-4 aircraft, 50-700 kt, great-circle dead reckoning, ~2 Hz reports with mostly alternating parity, 15 % drops, 5 % duplicates re-stamped within 0.3 s, gaps at 0.5 s / 8.5-11.5 s / 11-60 s / 170-190 s / 200-4000 s, 5 % delivery-order and timestamp swaps of neighbours < 1 s apart, starts biased to NL transitions, equator, antimeridian, latitude-zone edges, polar caps; 35 % of scenarios with an airborne->surface transition within 38 NM of a fixed receiver reference; real DF17 frames, and DF18 frames for one aircraft in seven, (TC 11 / TC 7) built by the independent CPR encoder + CRC, decoded by Message::try_from, then decode_positions (batch) or decode_position (step, 25 %). hostile family: deterministic histories on CPR aliases and window edges. Every emitted lat/lon is compared with the encoding-time truth (25 m); each aircraft alone must decode bit-identically. distinct = distinct histories with a correct verdict".into();
     r.assumptions.push("'locally swapped' = neighbours less than 1 s apart; duplicates re-stamped within 0.3 s; surface reports only within 40 NM of the receiver reference".into());
     let mut st = Stats { reports: 0, with_pos: 0, surface_pos: 0, max_err: 0.0 };
     let tr = geo::transitions();
@@ -572,5 +608,5 @@ pub fn run(a: &Args, r: &mut Report) {
     if std::env::var("RSMON_DECODE1090").is_ok() {
         r.class_n("engine:decode1090-cli", 0);
     }
-    r.extra.insert("mandatory".into(), json!([if std::env::var("RSMON_DECODE1090").is_ok() { "family:random/cli" } else { "family:random/batch" }, "family:random/batch", "family:random/step", "family:hostile:10s-pairs-across-latitude-zone-edge", "family:hostile:antimeridian-crossing", "non-interference:interleaved==alone", "reports:surface-with-position", "crossing:NL-band", "crossing:antimeridian", "crossing:equator", "gap:170-190s(reference window)", "gap:8.5-11.5s(pairing window)", "phase:airborne->surface"]));
+    r.extra.insert("mandatory".into(), json!([if std::env::var("RSMON_DECODE1090").is_ok() { "family:random/cli" } else { "family:random/batch" }, "family:random/batch", "family:random/step", "family:hostile:10s-pairs-across-latitude-zone-edge", "family:hostile:antimeridian-crossing", "non-interference:interleaved==alone", "reports:surface-with-position", "crossing:NL-band", "crossing:antimeridian", "crossing:equator", "gap:170-190s(reference window)", "gap:8.5-11.5s(pairing window)", "phase:airborne->surface", "target:DF18(TIS-B / non-transponder)"]));
 }
